@@ -282,7 +282,7 @@ impl Prop for C13Prop {
     }
     fn cross(&self, _case: &Case, _results: &[EnvResult], _cx: &mut Ctx) {}
     fn rule(&self) -> String {
-        "graphs of all 8 kinds with >= 1 edge: paths, cycles, stars, cliques joined by bridges, bipartite, G(n,p), unions, grids, trees, nested SCCs (n <= 40) and lifecycle-built graphs (n <= 8), unweighted or positive weights; seeds, resolution in (0,2], threshold in {0,1e-7,1e-3,0.1,1}; each case under 4 (quick) / 8 (thorough) hash keyings; every louvain call runs under the step budget 3e5 + 3e5 (n+m) allocations (exceeding it = did not terminate). Oracle: Ok with >= 1 level, every level a partition into non-empty communities, each level a coarsening of the previous, on single-edge graphs the oracle's own modularity is non-decreasing from singletons along the levels, louvain_communities = last level (both in fresh threads with equal keying). distinct_nontrivial = distinct (graph, arguments) with >= 1 edge; one case in 800 is a dense graph (1-3 blocks, 60-300 nodes) with 2 100 - 12 500 stored edges under a pool of 2-16 workers (strategy thresholds); weights also 1 + k 2^-j, 1e-17-scale, and finite weights whose sums / products overflow (1e308, MAX/4: modularity then is not a number and only termination, partitions and nesting are judged); shape 'hub joined to 3-5 identical parts by spokes graded in steps of 2^-41..2^-35 or one ulp'; one case in 60 is a circulant (regular) graph of 128-220 nodes with up to 1 980 edges, one in 600 a chain of 800-1 200 nodes with slowly growing weights (more than a thousand local-moving sweeps); under odd keyings the same call runs first on the same graph declared in another node order (what ran on the thread before must not matter); budget 3e5 + 3e5 (n+m)".into()
+        "graphs of all 8 kinds with >= 1 edge: paths, cycles, stars, cliques joined by bridges, bipartite, G(n,p), unions, grids, trees, nested SCCs (n <= 40) and lifecycle-built graphs (n <= 8), unweighted or positive weights; seeds, resolution in (0,2], threshold in {0,1e-7,1e-3,0.1,1}; each case under 4 (quick) / 8 (thorough) hash keyings; every louvain call runs under the step budget 3e5 + 3e5 (n+m) allocations (exceeding it = did not terminate). Oracle: Ok with >= 1 level, every level a partition into non-empty communities, each level a coarsening of the previous, on single-edge graphs the oracle's own modularity is non-decreasing from singletons along the levels, louvain_communities = last level (both in fresh threads with equal keying). distinct_nontrivial = distinct (graph, arguments) with >= 1 edge; one case in 800 is a dense graph (1-3 blocks, 60-300 nodes) with 2 100 - 12 500 stored edges under a pool of 2-16 workers (strategy thresholds); weights also 1 + k 2^-j, 1e-17-scale, and finite weights whose sums / products overflow (1e308, MAX/4: modularity then is not a number and only termination, partitions and nesting are judged); shape 'hub joined to 3-5 identical parts by spokes graded in steps of 2^-41..2^-35 or one ulp'; one case in 60 is a circulant (regular) graph of 128-220 nodes with up to 1 980 edges, one in 600 a chain of 800-1 200 nodes with slowly growing weights (more than a thousand local-moving sweeps); under odd keyings the same call runs first on the same graph declared in another node order (what ran on the thread before must not matter); budget 3e5 + 3e5 (n+m); in a third of the cases a battery of valid unjudged calls runs first on a sibling graph (same names and edges, other node order), in a fifth the graph is queried on the same object before its last one to three operations are applied (DESIGN.md 0.2)".into()
     }
     fn assumptions(&self) -> Vec<String> {
         vec!["termination is decided by a step budget (allocations); max.louvain_steps in coverage.fired vs the budget shows the margin".into(), "modularity monotonicity is checked with the harness's own Newman formula, at 1e-9".into()]
